@@ -6,7 +6,7 @@
    checked / truncating arithmetic of the source yields the model's value whenever that value fits the source's type,
    which is the case on the domain of the C05 / C20 theorems (positions below 2^62, offsets within a term). *)
 Require Import V.Base.MachineInt V.Base.MachineInt2 V.Base.MachineIntT V.Generated.GenConsts
-               V.Model.Descriptor V.Model.LogBase V.Model.Reader V.Model.Image V.Model.Subscription
+               V.Model.Descriptor V.Model.LogBase V.Model.Reader V.Model.Image
                V.Proofs.SrcNorm V.Proofs.SrcNormT V.Proofs.DescriptorProofs
                V.Generated.GenDescriptor V.Proofs.GenDescriptorProofs V.Generated.GenSrcBits
                V.Generated.GenSrcFrame V.Generated.GenSrcImage.
@@ -32,6 +32,19 @@ Proof. intros Hb. rewrite Z.sub_1_r, <- Z.ones_equiv, Z.land_ones by lia. reflex
 (* ---- Image::create ---- *)
 Lemma src_img_term_length_mask_eq m tl : in_i32 (tl - 1) = true -> src_img_term_length_mask m tl = Ok (tl - 1).
 Proof. intros H. unfold src_img_term_length_mask. src_robust. Qed.
+
+(* position_bits_to_shift = number_of_trailing_zeroes(capacity) is the model's bits_of (log2) for a term length 2^bits *)
+Lemma tz_pow2 k : 0 <= k -> tzT TI32 (2 ^ k) = k.
+Proof. intros Hk. pattern k. apply natlike_ind; [reflexivity| |assumption].
+  intros x Hx IH. rewrite Z.pow_succ_r by assumption.
+  assert (P : 0 < 2 ^ x) by (apply Z.pow_pos_nonneg; lia).
+  destruct (2 ^ x) as [|p|p] eqn:E; try lia.
+  change (2 * Z.pos p) with (Z.pos p~0). cbn [tzT tz_pos] in *. lia. Qed.
+
+Lemma src_img_position_bits_to_shift_eq m bits : 0 <= bits <= 30 ->
+  src_img_position_bits_to_shift m (2 ^ bits) = Ok (bits_of (2 ^ bits)).
+Proof. intros Hb. unfold src_img_position_bits_to_shift, src_number_of_trailing_zeroes, bits_of. cbv zeta.
+  rewrite tz_pow2 by lia. rewrite Z.log2_pow2 by lia. f_equal. apply wrap32_id. unfold in_i32, two31. lia. Qed.
 
 (* ---- poll ---- *)
 Lemma src_img_poll_term_offset_eq m tl pos :
@@ -118,18 +131,6 @@ Proof. intros Hb Htl Hc0 Hlim. unfold src_img_validate_position, validate_positi
     (split; [ intros (v & Hv) | intros Hv ]);
     destruct (al =? 0) eqn:A; cbn [negb] in *;
     first [ discriminate | reflexivity | eexists; reflexivity ]. Qed.
-
-(* ---- Subscription::poll_inner: which image is polled first, and the shared fragment budget ---- *)
-Theorem src_sub_rotation_eq m len rr : 0 <= rr -> in_i32 (rr + 1) = true ->
-  (s <- src_sub_starting_index m rr ;; n <- src_sub_next_round_robin m rr ;; w <- src_sub_wraps m len s ;;
-   Ok (if w : bool then (0, 0) else (s, n))) = Ok (rr_next len rr).
-Proof. intros H0 H1. unfold src_sub_starting_index, src_sub_next_round_robin, src_sub_wraps, rr_next.
-  rewrite castT_id by (unfold inT, in_i32, two31 in *; cbn [loT hiT signedT bitsT]; change (2 ^ 64) with 18446744073709551616; lia).
-  src_robust. Qed.
-
-Lemma src_sub_budget_eq m read limit : in_i32 (limit - read) = true ->
-  src_sub_has_budget m read limit = Ok (read <? limit) /\ src_sub_budget_left m limit read = Ok (limit - read).
-Proof. intros H. unfold src_sub_has_budget, src_sub_budget_left. split; src_robust. Qed.
 
 (* ---- term_reader::read (poll) ---- *)
 Lemma src_read_loop_eq m n limit off cap len :
